@@ -332,6 +332,50 @@ CHECK_DEADLOCK FALSE
                          "buffer size, filler class, short/4096-byte blocks and API (bytes/file/path); distinct = scenario x variant with at least one block")
     ctx.exhaustive = not q
 
+    # value classes the scenario table is never concretised with: payloads of several MiB (the order "key priority, then file order" holds
+    # over the whole payload, not inside a window of it) and stages whose image header lies at the far end of the search range
+    from dissect.cobaltstrike import beacon as _bm
+
+    def _far(what, data, want_idx, want_key, want_xe):
+        o = core.guarded(_bm.BeaconConfig.from_bytes, data, seconds=300)
+        ctx.evaluations += 1
+        got = None
+        if o[0] == "ok":
+            bc_ = o[1]
+            got = (bc_.raw_settings_by_index.get(2), list(bc_.xorkey or b""), bool(bc_.xorencoded))
+        if got != (1000 + want_idx, [want_key], want_xe):
+            ctx.violation("extraction from a large payload / a stage with a far image header differs from ExtractR", {"op": "BeaconConfig.from_*", "failed": "large_or_far", "class": what.split(":")[0]},
+                          {"scenario": what, "size": len(data), "expected": [1000 + want_idx, want_key, want_xe], "got": got if got else str(o)[:200]})
+        ctx.count_distinct(("far", what))
+
+    rng_f = random.Random(ctx.seed + 101)
+    MiB = 1 << 20
+    for (k_early, k_late) in ((0x2E, 0x69), (0x00, 0x2E), (0x69, 0x2E), (0x00, 0x69)):
+        for (o_early, o_late) in ((MiB // 2, MiB + MiB // 2), (100, 3 * MiB + 17), (MiB - 40, MiB + 5000)):
+            data = bytearray(rng_f.randbytes(4 * MiB))
+            for hk, ho in needle_hits(bytes(data)):
+                data[ho] ^= 0xFF  # (no accidental headers in the filler)
+            b1, b2 = block_bytes(1, k_early, False), block_bytes(2, k_late, False)
+            data[o_early:o_early + len(b1)] = b1
+            data[o_late:o_late + len(b2)] = b2
+            prio = [0x69, 0x2E, 0x00]
+            first = 1 if prio.index(k_early) < prio.index(k_late) else 2
+            _far(f"two_blocks_MiB: keys {k_early:#x}@{o_early} {k_late:#x}@{o_late}", bytes(data), first, k_early if first == 1 else k_late, False)
+        if q:
+            break
+    for (pre, lfa) in ((1023, 1002), (1020, 1020), (1023, 1023), (0, 1020), (900, 0x80)):
+        img, info = refpe.build_pe(arch="x64", e_lfanew=lfa, n_sections=2, section_size=0x3000, export_section=0)
+        img = bytearray(img)
+        bb_ = block_bytes(3, 0x2E, False)
+        o_ = info["sections"][0]["raw"] + 0x400
+        img[o_:o_ + len(bb_)] = bb_
+        content = bytes(rng_f.randrange(1, 255) for _ in range(pre)) + bytes(img)
+        stub = b"\x90" * 40 + b"\xff\xff\xff"
+        nonce = bytes(rng_f.randrange(1, 255) for _ in range(4))
+        if bytes(a ^ b for a, b in zip(content[:4], nonce)) == b"\xff\xff\xff\xff":
+            nonce = bytes([nonce[0] ^ 1]) + nonce[1:]
+        _far(f"far_image_header: prepend {pre} e_lfanew {lfa}", xorenc.stage(stub, nonce, content, b""), 3, 0x2E, True)
+
     # the command line face of extraction: beacon-dump as a state machine over its arguments (Cli.tla)
     from vt.checks import xcli
 
